@@ -798,6 +798,10 @@ void c24_case(Ctx& c, Rng& r) {
     cfg.fetch_retry_max_backoff = seconds(cfg.fetch_retry_initial_backoff.count() + r.below(120));
     cfg.fetch_retry_success_interval = seconds(1 + r.below(20));
     cfg.fetch_retry_attempt_limit = static_cast<std::uint8_t>(r.chance(1, 5) ? 0 : 1 + r.below(12));
+    // one case in eight is a long run of failures of one fetch: no or a high attempt limit, unreachable providers, a long-lived
+    // manifest, and the clock stepped from one retry time to the next, so that the back-off is followed over 40..110 attempts
+    const bool long_run = r.chance(1, 8);
+    if (long_run) cfg.fetch_retry_attempt_limit = static_cast<std::uint8_t>(r.chance(1, 2) ? 0 : 33 + r.below(223));
     cfg.fetch_availability_refresh = seconds(r.below(20));
     cfg.min_manifest_ttl = seconds(1);
     cfg.max_manifest_ttl = seconds(86400);
@@ -811,18 +815,18 @@ void c24_case(Ctx& c, Rng& r) {
     fx::NodeFx f(fx::peer_id_n(1, 0xB1), cfg);
     const unsigned npeers = 2 + static_cast<unsigned>(r.below(3));
     std::vector<bool> has_session;
-    for (unsigned i = 0; i < npeers; ++i) { const bool s = r.chance(2, 3); has_session.push_back(s); f.add_peer(fx::peer_id_n(10 + i), r, s); }
+    for (unsigned i = 0; i < npeers; ++i) { const bool s = !long_run && r.chance(2, 3); has_session.push_back(s); f.add_peer(fx::peer_id_n(10 + i), r, s); }
     Config dcfg = base_config(r);
     dcfg.max_manifest_ttl = seconds(86400);
     Node donor(fx::peer_id_n(9, 0xB2), dcfg);
     struct Known { ChunkId id; std::string uri; std::vector<std::uint8_t> cipher; std::uint8_t shard; std::int64_t expires_sys; };
     std::vector<Known> chunks;
-    const unsigned nchunks = 1 + static_cast<unsigned>(r.below(5));
+    const unsigned nchunks = long_run ? 1 : 1 + static_cast<unsigned>(r.below(5));
     for (unsigned i = 0; i < nchunks; ++i) {
         Known k{};
         k.id = fx::chunk_id_n(i);
         auto m = donor.store_chunk(k.id, r.bytes(24), seconds(3600));
-        const std::int64_t life = r.chance(1, 3) ? 5 + static_cast<std::int64_t>(r.below(60)) : 3000;
+        const std::int64_t life = long_run ? 80000 : (r.chance(1, 3) ? 5 + static_cast<std::int64_t>(r.below(60)) : 3000);
         m.expires_at = std::chrono::system_clock::time_point{seconds(fx::system_ns() / NS + life)};
         k.expires_sys = m.expires_at.time_since_epoch().count();
         k.uri = protocol::encode_manifest(m);
@@ -832,10 +836,11 @@ void c24_case(Ctx& c, Rng& r) {
     }
     struct Track { std::size_t attempts{0}; };
     std::map<std::string, Track> track;
-    const auto nsteps = 8 + r.below(60);
+    const auto nsteps = long_run ? 80 + r.below(140) : 8 + r.below(60);
     std::uint64_t sig = hx::mix(limit, hx::mix(alimit, hx::mix(static_cast<std::uint64_t>(b0), static_cast<std::uint64_t>(bmax))));
     for (std::uint64_t s = 0; s < nsteps; ++s) {
-        const auto k = r.below(10);
+        auto k = r.below(10);
+        if (long_run && !r.chance(1, 40)) k = s == 0 ? 0 : (s % 2 == 1 ? 9 : 5);
         std::string what;
         // remember attempts before the step to detect failed dispatches
         std::map<std::string, std::size_t> attempts_before;
@@ -885,7 +890,7 @@ void c24_case(Ctx& c, Rng& r) {
         } else {
             std::vector<std::int64_t> ds;
             for (auto& [_, st] : f.node->pending_chunk_fetches_) if (st.next_attempt != std::chrono::steady_clock::time_point::max()) ds.push_back(st.next_attempt.time_since_epoch().count());
-            const auto kk = r.below(5);
+            const auto kk = long_run && r.chance(5, 6) ? 1 : r.below(5);
             const auto now = fx::steady_ns();
             std::int64_t target = now + static_cast<std::int64_t>(r.below(30 * NS));
             if (!ds.empty() && kk <= 2) { const auto dl = ds[r.below(ds.size())]; target = kk == 0 ? dl - 1 : (kk == 1 ? dl : dl + 1); }
@@ -939,6 +944,7 @@ void c24_case(Ctx& c, Rng& r) {
                 auto expect_for = [&](std::size_t exponent) { const long double v = static_cast<long double>(b0) * std::pow(2.0L, static_cast<long double>(exponent)); return static_cast<std::int64_t>(std::min<long double>(v, static_cast<long double>(bmax))); };
                 const std::int64_t e1 = expect_for(a - 1), e2 = expect_for(std::min<std::size_t>(a - 1, 8));
                 c.note("fetch.backoff-delays-checked");
+                c.note_max("fetch.max-consecutive-failed-attempts-followed", a);
                 if (delay > bmax * NS) c.violation("C24:backoff:delay-above-maximum", desc().kv("attempt", a).kv("delay_ns", delay).str());
                 else if (delay != e1 * NS && !(a - 1 >= 8 && delay == e2 * NS)) c.violation("C24:backoff:not-initial-times-power-of-two", desc().kv("attempt", a).kv("delay_ns", delay).kv("expected_s", e1).str());
             }
@@ -986,12 +992,27 @@ bool name_is_safe(const std::string& n, std::string& why) {
 std::string hostile_name(Rng& r) {
     static const char* fixed[] = {"../../etc/passwd", "..\\..\\windows\\system32\\x", "a/b/c", "/abs/path", "C:\\x\\y", ".", "..", "...", "....", " ", "", "./", "../", "..\\", "foo/", "foo/..", "foo/.",
                                   "a\nb", "a\rb", "nul\x01l", ".\x01.", "\x01..", "..\x7f", ".\x7f.", "x:y", "con", "a*b?c", "\"q\"", "<a>|b", "normal.txt", "..a", "a..", "~", "-rf", "\xff\xfe.bin", "\xc3\x28"};
-    const auto k = r.below(10);
+    const auto k = r.below(13);
     if (k < 5) return fixed[r.below(sizeof fixed / sizeof fixed[0])];
     if (k == 5) return std::string(1 + r.below(4096), r.chance(1, 2) ? 'a' : '.');
     if (k == 6) { std::string s; const auto n = r.below(12); for (std::uint64_t i = 0; i < n; ++i) s += r.chance(1, 2) ? "../" : "..\\"; return s + gen::rand_string(r, r.below(8)); }
     if (k == 7) { std::string s = gen::rand_string(r, 1 + r.below(40)); return s; }
     if (k == 8) { std::string s = "."; const auto n = r.below(4); for (std::uint64_t i = 0; i < n; ++i) s.push_back(static_cast<char>(r.below(0x20))); s += "."; return s; }
+    if (k >= 10) {
+        // a hostile piece at the start / in the middle / at the end (also as the extension) of a filler that brings the whole
+        // name just below, to, or beyond the 255-byte cap: what the shortening step keeps must be as clean as a short name
+        std::string piece = r.chance(1, 2) ? std::string(fixed[r.below(sizeof fixed / sizeof fixed[0])]) : gen::rand_string(r, 1 + r.below(30));
+        static const std::size_t totals[] = {250, 254, 255, 256, 257, 260, 300, 511, 512, 1000};
+        const std::size_t total = totals[r.below(sizeof totals / sizeof totals[0])];
+        const std::size_t fill = total > piece.size() ? total - piece.size() : 1;
+        const char fc = "ab. _"[r.below(5)];
+        switch (r.below(4)) {
+            case 0: return piece + std::string(fill, fc);
+            case 1: return std::string(fill / 2, fc) + piece + std::string(fill - fill / 2, fc);
+            case 2: return std::string(fill, fc) + piece;
+            default: return std::string(fill > 1 ? fill - 1 : 1, fc) + "." + piece;
+        }
+    }
     std::string s = fixed[r.below(sizeof fixed / sizeof fixed[0])];
     s.insert(r.below(s.size() + 1), 1, "/\\\0\x1f.:"[r.below(6)]);
     return s;
